@@ -366,7 +366,8 @@ class Interp(object):
           ("ok", value) | ("err", name, cause) | ("silent",)          optionally followed by a latency in seconds
     """
 
-    def __init__(self, asl, task, exec_id="E", start_time=0.0, variant=None, intrinsic=None, exec_name=None, sm_id=None):
+    def __init__(self, asl, task, exec_id="E", start_time=0.0, variant=None, intrinsic=None, exec_name=None, sm_id=None,
+                 shared_retry_counter=False):
         self.asl, self.task = asl, task
         self.trace = []
         self.t = start_time
@@ -382,6 +383,7 @@ class Interp(object):
         if sm_id is not None:
             self.ctx_base["StateMachine"] = {"Id": sm_id}
         self.exec_timeout = asl.get("TimeoutSeconds")
+        self.shared_retry_counter = shared_retry_counter     # NOT the specification: models one counter per state (classifier delta test)
 
     def run(self, data):
         self.ctx_base["Execution"]["Input"] = copy.deepcopy(data)
@@ -553,15 +555,17 @@ class Interp(object):
                 if e.name not in UNRECOVERABLE:
                     for i, r in enumerate(st.get("Retry", [])):
                         if self.err_matches(r["ErrorEquals"], e.name, task_raised):
-                            k = counters.get(i, 0)
+                            ci = 0 if self.shared_retry_counter else i
+                            k = counters.get(ci, 0)
                             if k < r.get("MaxAttempts", 3):
-                                counters[i] = k + 1
+                                counters[ci] = k + 1
+                                self.facts.setdefault("retriers_used", set()).add(i)
                                 rate = r.get("BackoffRate", 2.0)
                                 if rate < 1.0:
                                     raise Unspecified("BackoffRate < 1")
                                 self.t += r.get("IntervalSeconds", 1) * (rate ** k)
                                 self.facts["retries"] += 1
-                                if len([c for c in counters.values() if c]) > 1:
+                                if len(self.facts.get("retriers_used", ())) > 1:
                                     self.facts["multi_retrier"] = True
                                 handled = True
                             break
